@@ -28,6 +28,9 @@ ASSUMPTIONS = [
     "C06_sort_cycle_no_change (rfl)",
     "convenience.replace_all_uses_with with several pairs and convenience.replace_nodes_and_values are sequences of "
     "public calls and are NOT atomic in the code (known findings D82, D83, keyed on the position / sub-step that raised); "
+    "Tape.initializer (new value, then graph.register_initializer) and Builder.<Op> (node, then output names) are "
+    "composites too: a rejected registration leaves the fresh value behind (no pre-existing object changes: the "
+    "before/after snapshot is taken over the objects that existed before the call); "
     "the atomicity theorem does not cover them, the model keeps their partial effects exactly like the code and the "
     "comparison continues after them",
     "exception types are compared against the documented rejections per call (an undocumented type is reported as "
@@ -51,6 +54,7 @@ def run(ctx: Ctx) -> None:
     ctx.notes.append("directed: " + K.run_sort_scenarios(ctx, PROP))
     ctx.notes.append("directed: " + K.run_position_scenarios(ctx, PROP))
     K.run_random(ctx, PROP, ctx.pick(2000, 40000), ctx.pick(40, 60))
+    K.check_alphabet(ctx, PROP)
 
 
 def replay(ctx: Ctx, obj: dict) -> None:
